@@ -141,3 +141,7 @@ Definition check_fill_kw
   | Err e, Err e' => err_eqb e e'
   | _, _ => false
   end.
+
+(* the option string of a cell card -> tokens in reading order *)
+Definition check_tokenize (c : string * list string) : bool :=
+  list_eqb String.eqb (tokenize_options (fst c)) (snd c).
